@@ -45,6 +45,74 @@ Theorem C07_pinned_last_line_refuted :
 Proof. split; vm_compute; reflexivity. Qed.
 Print Assumptions C07_pinned_last_line_refuted.
 
+(** The file NAMED on the command line (Handler::addArgumentFile, "--arg-file
+    <name>"; ArgH/ArgFile.v, ArgFileProofs.v).  [af_use] is the use of that
+    argument: first half of its own handling (notifications, cardinality),
+    then the file, then the second half (constraints activated).  For every
+    file whose argument lines are legal spellings (extended grammar) the file
+    is evaluated IN PLACE: its uses are performed one after the other by the
+    same step function in read mode "file" (cardinality counting off, values
+    may be overridden later), at every nesting depth; the enclosing source
+    continues in its own mode.  A missing file is refused.  Without such an
+    argument the evaluation is the one of Handler.v. *)
+Require Import Celma.ArgH.GenSim Celma.ArgH.HandlerSim Celma.ArgH.ArgFile Celma.ArgH.ArgFileProofs.
+
+Theorem C07_named_file_in_place :
+  forall c af d ic s name t uss,
+    fixed_notify c = true -> takes_required c (af_idx af) ->
+    af_content (af_files af) name = Some t ->
+    xspell_lines c uss (file_arg_lines t) ->
+    af_use c af (read_file c af (S d)) s ic name =
+    do s2 <- af_before c s (af_idx af) ic;
+    do s3 <- fold_lines c af (read_file c af d) s2 uss;
+    Ok (af_after c s3 (af_idx af)).
+Proof. exact arg_file_in_place. Qed.
+Print Assumptions C07_named_file_in_place.
+
+(** the words of any source that holds such an argument: the fold over the
+    uses, for every legal spelling *)
+Theorem C07_named_file_words :
+  forall c af sub, fixed_notify c = true -> takes_required c (af_idx af) ->
+  forall ic us ws s, xspell c us ws ->
+    words_af c af sub s ic ws = gfold nat hstate (af_ustep c af sub ic) s us.
+Proof. exact words_af_spelled. Qed.
+Print Assumptions C07_named_file_words.
+
+Theorem C07_named_file_missing :
+  forall c af d ic s name s2,
+    af_content (af_files af) name = None -> af_before c s (af_idx af) ic = Ok s2 ->
+    af_use c af (read_file c af (S d)) s ic name = Err ERuntime.
+Proof. exact arg_file_missing. Qed.
+Print Assumptions C07_named_file_missing.
+
+Theorem C07_named_file_conservative :
+  forall c af inits fl env argv,
+    (forall k r, lookup c k = Ok r -> is_af af r = false) ->
+    eval_arguments_af c af inits fl env argv = eval_arguments c inits fl env argv.
+Proof. exact eval_arguments_af_conservative. Qed.
+Print Assumptions C07_named_file_conservative.
+
+(** Non-vacuity: -i <int> and --arg-file; environment "--arg-file f1.pa -i 7"
+    with f1.pa = "-i 5", then "-i 8" on the command line: accepted, i = 8
+    (the value from the environment stays overridable behind the file). *)
+Definition nf_cfg : cfg :=
+  {| args := [{| a_key := key_of_char 105%N; a_kind := DInt; a_vmode := VMRequired; a_mand := false; a_multi := false;
+                 a_sep := 44%N; a_clear := false; a_sort := false; a_uniq := false; a_uniq_err := false; a_checks := [];
+                 a_fmts := []; a_card := CardMax 1; a_excl := []; a_req := []; a_depr := false; a_mix := false |};
+              {| a_key := {| kc := 0%N; kw := [97; 114; 103; 45; 102; 105; 108; 101]%N |}; a_kind := DStr;
+                 a_vmode := VMRequired; a_mand := false; a_multi := false;
+                 a_sep := 44%N; a_clear := false; a_sort := false; a_uniq := false; a_uniq_err := false; a_checks := [];
+                 a_fmts := []; a_card := CardMax 1; a_excl := []; a_req := []; a_depr := false; a_mix := false |}];
+     gcons := []; abbr := true; fixed_notify := true |}.
+Definition nf_af : afile :=
+  {| af_idx := 1; af_files := [([102; 49; 46; 112; 97]%N, [45; 105; 32; 53; 10]%N)] |}.
+Example C07_nonvacuous_named_file :
+  exists s, eval_sources_af nf_cfg nf_af [VInt 0; VStr []] None
+              (Some [45; 45; 97; 114; 103; 45; 102; 105; 108; 101; 32; 102; 49; 46; 112; 97; 32; 45; 105; 32; 55]%N)
+              [[45; 105]; [56]]%N = Ok s /\
+            val (nth 0 (arts s) dummy_art) = VInt 8.
+Proof. eexists. split; vm_compute; reflexivity. Qed.
+
 Example C07_nonvacuous :
   let ws := [[97; 32; 98]; [39; 34]; [92]]%N in    (* the words: a-blank-b, quote-doublequote, backslash *)
   Forall (fun w => w <> []) ws /\ split (join (map escape ws)) = ws.
